@@ -5,11 +5,14 @@
    model_order_invariant: therefore the results of the element-layer model (which C01 proves to
    be those values) agree element by element; scaling_invariant: multiplying the turn rates of
    all links leaving each node n by c(n) <> 0 changes nothing; share_is_turnrate: the inflow
-   of a leaving link is beta/sum(beta) of the node inflow.  Names: Blocks.v has none. *)
+   of a leaving link is beta/sum(beta) of the node inflow.  Names: Blocks.v has none.
+   The *_model_* theorems state order and scaling invariance of the element-layer model itself (the
+   engines regenerated from engines/numpy.py and engines/casadi.py), with both steps produced by the
+   model on a valid network rather than assumed: they compose C01's theorem with the above. *)
 From Coq Require Import Reals List.
 From SM Require Import Num NumR Engine.
 From SM.specs Require Import C14_spec.
-From SM.proofs Require Import C14_proofs.
+From SM.proofs Require Import C14_proofs C14_model StepSpec.
 
 Theorem C14_order_invariant : order_invariant.
 Proof. exact order_invariant_proof. Qed.
@@ -26,3 +29,16 @@ Print Assumptions C14_scaling_invariant.
 Theorem C14_share_is_turnrate : share_is_turnrate.
 Proof. exact share_is_turnrate_proof. Qed.
 Print Assumptions C14_share_is_turnrate.
+
+Theorem C14_model_scaling_invariant_numpy : model_scaling_invariant (@np_engine R NumR).
+Proof. exact (model_scaling_invariant_proof _ np_step_is_METANET). Qed.
+Print Assumptions C14_model_scaling_invariant_numpy.
+Theorem C14_model_scaling_invariant_casadi : model_scaling_invariant (@cs_engine R NumR).
+Proof. exact (model_scaling_invariant_proof _ cs_step_is_METANET). Qed.
+Print Assumptions C14_model_scaling_invariant_casadi.
+Theorem C14_model_order_invariant_valid_numpy : model_order_invariant_valid (@np_engine R NumR).
+Proof. exact (model_order_invariant_valid_proof _ np_step_is_METANET). Qed.
+Print Assumptions C14_model_order_invariant_valid_numpy.
+Theorem C14_model_order_invariant_valid_casadi : model_order_invariant_valid (@cs_engine R NumR).
+Proof. exact (model_order_invariant_valid_proof _ cs_step_is_METANET). Qed.
+Print Assumptions C14_model_order_invariant_valid_casadi.
